@@ -6,9 +6,9 @@ open Proto Store StoreIO Pseudo
 
 /-  stateful line protocol (state = heap-layer store with roles + plain tables in lock step):
       reset | init <expcols> <mccols> | newMethod | uniformRA <lo> <hi> <deviates>   (floats as bit patterns)
-      genFixed <sets> | genMC <keep> <presel> <draw> <sets> <expFields> |
-      genComp <keep> <sets> <rates> <presel> <draw> <expFields> | genSig <cols> | merge b s
-      initTrial e <pre> <sel> <idx> <stat> | unblind <pre> <sel> <idx> <stat> | unblindAdopt … | evaluate
+      genFixed <scr> <sets> | genMC <keep> <presel> <draw> <scr> <sets> <expFields> |
+      genComp <keep> <scr> <sets> <rates> <presel> <draw> <expFields> | genSigMC <ev> <post> <empty> <fill> | genSig <cols> | merge b s
+      initTrial e <pre> <sel> <idx> <stat> | unblind <pre> <sel> <idx> <stat> | unblindAdopt … | evaluate <fields>
     <sel> = N | i:<ints> | m:<bools>;  <idx> = N | <name>:<perm>;  cols = name:dt:vals+…
     answer:  h=<id|N> cache=<id|N> events=<id|N> errs=<failing container ops> | <heap containers> | <tables>
 -/
@@ -27,19 +27,38 @@ def pOIdx (s : String) : Option (Nat × List Nat) :=
 
 def pCfg (pre sel idx stat : String) : TrialCfg := ⟨pCols pre, pOSel sel, pOIdx idx, pCols stat⟩
 
+def pScr (s : String) : Option Scr :=
+  match s with
+  | "uniform" => some .uniformRA | "uniform_range" => some .uniformRA
+  | "i3time" => some .i3time | "seasonal" => some .seasonal | "time" => some .time
+  | _ => none
+
+/-- the scrambled arrays are sent with their field names; the model takes the names from `documented` and the request is
+rejected when they differ (so the table of documented fields in the model is tied to what the harness observed) -/
+def scrOK (scr : Option Scr) (cols : List (Name × Col)) : Bool :=
+  (scrSets scr (cols.map (·.2))).map (·.1) == cols.map (·.1)
+
 def pGOp (toks : List String) : Option GOp :=
   match toks with
-  | ["genFixed", sets] => some (.genFixed (pCols sets))
-  | ["genMC", keep, presel, draw, sets, ef] =>
-      some (.genMC (pList pN keep) (pOSel presel) (pList pI draw) (pCols sets) (pList pN ef))
-  | ["genComp", keep, sets, rates, presel, draw, ef] =>
-      some (.genComposite (pList pN keep) (pCols sets) (pCols rates) (pOSel presel) (pList pI draw) (pList pN ef))
+  | ["genFixed", scr, sets] =>
+      match pScr scr with
+      | some m => if scrOK (some m) (pCols sets) then some (.genFixed m ((pCols sets).map (·.2))) else none
+      | none => none
+  | ["genMC", keep, presel, draw, scr, sets, ef] =>
+      if scrOK (pScr scr) (pCols sets) then
+        some (.genMC (pList pN keep) (pOSel presel) (pList pI draw) (pScr scr) ((pCols sets).map (·.2)) (pList pN ef))
+      else none
+  | ["genComp", keep, scr, sets, rates, presel, draw, ef] =>
+      if scrOK (pScr scr) (pCols sets) then
+        some (.genComposite (pList pN keep) (pScr scr) ((pCols sets).map (·.2)) (pCols rates) (pOSel presel) (pList pI draw) (pList pN ef))
+      else none
+  | ["genSigMC", ev, post, empty, fill] => some (.genSigMC (pList pI ev) (pCols post) (pCols empty) (pList pI fill))
   | ["genSig", cols] => some (.genSig (pCols cols))
   | ["merge", b, s] => some (.merge (pN b) (pN s))
   | ["initTrial", e, pre, sel, idx, stat] => some (.initTrial (pN e) (pCfg pre sel idx stat))
   | ["unblind", pre, sel, idx, stat] => some (.unblind (pCfg pre sel idx stat))
   | ["unblindAdopt", pre, sel, idx, stat] => some (.unblindAdopt (pCfg pre sel idx stat))
-  | ["evaluate"] => some .evaluate
+  | ["evaluate", fields] => some (.evaluate (pCols fields))
   | _ => none
 
 def fON : Option Nat → String
@@ -95,7 +114,7 @@ def answer (st : DState) (line : String) : DState × String :=
         match h with
         | none => st.2
         | some id =>
-          if cmd == "genFixed" || cmd == "genMC" || cmd == "genComp" || cmd == "genSig" then (st.2.1 ++ [id], id)
+          if cmd == "genFixed" || cmd == "genMC" || cmd == "genComp" || cmd == "genSig" || cmd == "genSigMC" then (st.2.1 ++ [id], id)
           else if tmp then (st.2.1, id) else st.2
       (((g', ts'), hs'), s!"h={fON h} cache={fON g'.roles.cache} events={fON g'.roles.events} errs={errs} | {dump g' ts'}")
   | [] => (st, "bad-op")
